@@ -1,5 +1,655 @@
-//! (stub) filled in by the corresponding builder
-pub fn main(_args: &[String]) {
-    eprintln!("stordrv: not implemented yet");
-    std::process::exit(2);
+//! Storage drivers.
+//!
+//! * `storage-replay` (C16): runs TLC-generated StorageTxn call sequences on InMemoryStorage and
+//!   SqliteStorage (with close/reopen, read-only handles and databases rewritten under older
+//!   schemas at the points the stimulus says) and logs every call with its result.
+//! * `sqlite-kill` / `sqlite-child` (C06): replica actions on a SQLite directory in a child
+//!   process that is stopped (SIGKILL) at every storage call index, or fails there, or is killed
+//!   at a random instant; the parent reopens the directory and logs what it finds.
+//! * `sqlite-concurrent` / `sqlite-worker` (C17): several handles (threads and child processes)
+//!   on one SQLite directory.
+#![allow(clippy::too_many_arguments)]
+use crate::model::{DbState, TIME_BASE};
+use crate::{arg, local_block_on};
+use chrono::{DateTime, TimeZone, Utc};
+use serde_json::{json, Value};
+use std::collections::HashMap;
+use std::io::{BufRead, Write};
+use std::path::{Path, PathBuf};
+use std::sync::{Arc, Mutex};
+use taskchampion::storage::inmemory::InMemoryStorage;
+use taskchampion::storage::{AccessMode, Storage, StorageTxn, TaskMap};
+use taskchampion::{Operation, SqliteStorage, Uuid};
+
+pub const NOVAL: &str = "~";
+
+pub fn main(args: &[String]) {
+    let cmd = args.get(1).map(|s| s.as_str()).unwrap_or("");
+    match cmd {
+        "storage-replay" => storage_replay(args),
+        _ => {
+            eprintln!("stordrv: unknown sub-command {cmd}");
+            std::process::exit(2);
+        }
+    }
+}
+
+// ------------------------------------------------------------------------------------------
+// model tokens <-> concrete values
+
+/// Maps the specification's tokens (tasks u1.., properties, values, versions v1.., times) to
+/// concrete values of a chosen class, and back.
+pub struct SM {
+    pub valclass: String,
+    pub nanos: u32,
+    rev_val: HashMap<String, String>,
+    rev_key: HashMap<String, String>,
+}
+
+const TASK_BASE: u128 = 0x7a5c_0000_0000_0000_0000_0000_0000_0000u128;
+const VER_BASE: u128 = 0xba5e_0000_0000_0000_0000_0000_0000_0000u128;
+
+impl SM {
+    pub fn new(valclass: &str) -> SM {
+        SM {
+            valclass: valclass.to_string(),
+            nanos: if valclass == "ascii" { 0 } else { 123_456_789 },
+            rev_val: HashMap::new(),
+            rev_key: HashMap::new(),
+        }
+    }
+    pub fn task(&self, tok: &str) -> Uuid {
+        let n: u128 = tok.trim_start_matches('u').parse().expect("task token uN");
+        Uuid::from_u128(TASK_BASE + n)
+    }
+    pub fn task_tok(&self, u: Uuid) -> String {
+        let n = u.as_u128();
+        if (TASK_BASE..TASK_BASE + 1_000_000).contains(&n) {
+            format!("u{}", n - TASK_BASE)
+        } else {
+            format!("?{u}")
+        }
+    }
+    pub fn ver(&self, tok: &str) -> Uuid {
+        if tok == NOVAL {
+            return Uuid::nil();
+        }
+        let n: u128 = tok.trim_start_matches('v').parse().expect("version token vN");
+        Uuid::from_u128(VER_BASE + n)
+    }
+    pub fn ver_tok(&self, u: Uuid) -> String {
+        let n = u.as_u128();
+        if u.is_nil() {
+            NOVAL.to_string()
+        } else if (VER_BASE..VER_BASE + 1_000_000).contains(&n) {
+            format!("v{}", n - VER_BASE)
+        } else {
+            format!("?{u}")
+        }
+    }
+    pub fn time(&self, t: i64) -> DateTime<Utc> {
+        Utc.timestamp_opt(TIME_BASE + t, self.nanos).unwrap()
+    }
+    pub fn time_tok(&self, t: &DateTime<Utc>) -> i64 {
+        if t.timestamp_subsec_nanos() != self.nanos {
+            return -999_999;
+        }
+        t.timestamp() - TIME_BASE
+    }
+    pub fn val(&mut self, tok: &str) -> String {
+        let s = match self.valclass.as_str() {
+            "unicode" => format!("{tok}\u{2713}\u{fc}\"\\\n\u{1f600}'{tok}"),
+            "edge" => match tok {
+                "a" => String::new(),
+                "b" => "\u{0}null".to_string(),
+                "pending" | "recurring" | "completed" | "deleted" => tok.to_string(),
+                _ => format!(" {tok}\t"),
+            },
+            _ => tok.to_string(),
+        };
+        self.rev_val.insert(s.clone(), tok.to_string());
+        s
+    }
+    pub fn val_tok(&self, s: &str) -> String {
+        match self.rev_val.get(s) {
+            Some(t) => t.clone(),
+            None if self.valclass == "ascii" && s.len() < 40 => s.to_string(),
+            None => format!("?{}", s.chars().take(30).collect::<String>()),
+        }
+    }
+    pub fn key(&mut self, tok: &str) -> String {
+        let s = match self.valclass.as_str() {
+            "unicode" if tok != "status" => format!("{tok}\u{e9}'\"\\{tok}\u{1f4a5}"),
+            "edge" => match tok {
+                "p" => String::new(),
+                "q" => "$.Update.uuid".to_string(),
+                _ => tok.to_string(),
+            },
+            _ => tok.to_string(),
+        };
+        self.rev_key.insert(s.clone(), tok.to_string());
+        s
+    }
+    pub fn key_tok(&self, s: &str) -> String {
+        match self.rev_key.get(s) {
+            Some(t) => t.clone(),
+            None if self.valclass == "ascii" && s.len() < 40 => s.to_string(),
+            None => format!("?{}", s.chars().take(30).collect::<String>()),
+        }
+    }
+
+    /// a task map from the stimulus form {prop: value-or-"~"}
+    pub fn map_from_json(&mut self, m: &Value) -> TaskMap {
+        let mut t = TaskMap::new();
+        if let Some(o) = m.as_object() {
+            for (p, v) in o {
+                let v = v.as_str().unwrap_or(NOVAL);
+                if v != NOVAL {
+                    let k = self.key(p);
+                    let v = self.val(v);
+                    t.insert(k, v);
+                }
+            }
+        }
+        t
+    }
+    /// sorted [[prop, value], ...]
+    pub fn map_to_json(&self, t: &TaskMap) -> Value {
+        let mut pv: Vec<(String, String)> =
+            t.iter().map(|(p, v)| (self.key_tok(p), self.val_tok(v))).collect();
+        pv.sort();
+        json!(pv)
+    }
+    /// an operation from the stimulus form {k,u,p,v,t,o:{prop: value-or-"~"}} (o may also be
+    /// an array of pairs)
+    pub fn op_from_json(&mut self, j: &Value) -> Operation {
+        let k = j["k"].as_str().unwrap();
+        let old: Vec<(String, String)> = match &j["o"] {
+            Value::Object(m) => m
+                .iter()
+                .map(|(p, v)| (p.clone(), v.as_str().unwrap_or(NOVAL).to_string()))
+                .collect(),
+            Value::Array(a) => a
+                .iter()
+                .map(|e| (e[0].as_str().unwrap().to_string(), e[1].as_str().unwrap().to_string()))
+                .collect(),
+            _ => vec![],
+        };
+        match k {
+            "P" => Operation::UndoPoint,
+            "C" => Operation::Create { uuid: self.task(j["u"].as_str().unwrap()) },
+            "D" => {
+                let mut old_task = TaskMap::new();
+                for (p, v) in old {
+                    if v != NOVAL {
+                        let kk = self.key(&p);
+                        let vv = self.val(&v);
+                        old_task.insert(kk, vv);
+                    }
+                }
+                Operation::Delete { uuid: self.task(j["u"].as_str().unwrap()), old_task }
+            }
+            "U" => {
+                let p = j["p"].as_str().unwrap().to_string();
+                let v = j["v"].as_str().unwrap();
+                let mut ov = None;
+                for (pp, vv) in old {
+                    if pp == p && vv != NOVAL {
+                        ov = Some(self.val(&vv));
+                    }
+                }
+                Operation::Update {
+                    uuid: self.task(j["u"].as_str().unwrap()),
+                    property: self.key(&p),
+                    value: if v == NOVAL { None } else { Some(self.val(v)) },
+                    old_value: ov,
+                    timestamp: self.time(j["t"].as_i64().unwrap_or(0)),
+                }
+            }
+            _ => panic!("bad op kind {k}"),
+        }
+    }
+    pub fn op_to_json(&self, op: &Operation) -> Value {
+        match op {
+            Operation::UndoPoint => json!({"k":"P","u":"-","p":"-","v":"-","t":0,"o":[]}),
+            Operation::Create { uuid } => {
+                json!({"k":"C","u":self.task_tok(*uuid),"p":"-","v":"-","t":0,"o":[]})
+            }
+            Operation::Delete { uuid, old_task } => {
+                json!({"k":"D","u":self.task_tok(*uuid),"p":"-","v":"-","t":0,
+                       "o":self.map_to_json(old_task)})
+            }
+            Operation::Update { uuid, property, value, old_value, timestamp } => {
+                let p = self.key_tok(property);
+                let o: Vec<(String, String)> = match old_value {
+                    Some(ov) => vec![(p.clone(), self.val_tok(ov))],
+                    None => vec![],
+                };
+                json!({"k":"U","u":self.task_tok(*uuid),"p":p,
+                       "v": match value { Some(v) => self.val_tok(v), None => NOVAL.to_string() },
+                       "t": self.time_tok(timestamp), "o": o})
+            }
+        }
+    }
+    pub fn ops_to_json(&self, ops: &[Operation]) -> Value {
+        Value::Array(ops.iter().map(|o| self.op_to_json(o)).collect())
+    }
+    pub fn tasks_to_json(&self, tasks: Vec<(Uuid, TaskMap)>) -> Value {
+        let mut out: Vec<(String, Value)> =
+            tasks.iter().map(|(u, t)| (self.task_tok(*u), self.map_to_json(t))).collect();
+        out.sort_by(|a, b| (&a.0, a.1.to_string()).cmp(&(&b.0, b.1.to_string())));
+        json!(out)
+    }
+    pub fn ws_to_json(&self, ws: &[Option<Uuid>]) -> Value {
+        let items: Vec<String> = ws
+            .iter()
+            .skip(1)
+            .map(|e| match e {
+                Some(u) => self.task_tok(*u),
+                None => NOVAL.to_string(),
+            })
+            .collect();
+        json!({"ws0": ws.first().map(|e| e.is_none()).unwrap_or(false), "ws": items})
+    }
+    /// the state in the form of TraceSync's `post` (base as a version token)
+    pub fn db_to_json(&self, d: &DbState, base: Value) -> Value {
+        let tasks: Vec<(Uuid, TaskMap)> = d
+            .tasks
+            .iter()
+            .map(|(u, t)| (*u, t.iter().map(|(k, v)| (k.clone(), v.clone())).collect()))
+            .collect();
+        let w = self.ws_to_json(&d.ws);
+        json!({"tasks": self.tasks_to_json(tasks), "ops": self.ops_to_json(&d.ops),
+               "base": base, "ws": w["ws"], "ws0": w["ws0"]})
+    }
+}
+
+fn status_of(e: &taskchampion::Error) -> (&'static str, String) {
+    let msg = format!("{e:#}");
+    if msg.contains("read-only mode") {
+        ("readonly", msg)
+    } else {
+        ("error", msg)
+    }
+}
+
+// ------------------------------------------------------------------------------------------
+// C16: storage-replay
+
+async fn open_sqlite(dir: &Path, ro: bool, create: bool) -> Result<SqliteStorage, String> {
+    let mode = if ro { AccessMode::ReadOnly } else { AccessMode::ReadWrite };
+    SqliteStorage::new(dir, mode, create).await.map_err(|e| format!("{e:#}"))
+}
+
+/// one call of a StorageTxn method: (status, value, message)
+async fn exec_call(txn: &mut dyn StorageTxn, c: &Value, sm: &mut SM) -> (String, Value, String) {
+    let a = c["a"].as_str().unwrap();
+    let u = c["u"].as_str().unwrap_or("-");
+    macro_rules! done {
+        ($r:expr, $f:expr) => {
+            match $r {
+                Ok(x) => ("ok".to_string(), $f(x), String::new()),
+                Err(e) => {
+                    let (st, msg) = status_of(&e);
+                    (st.to_string(), json!("-"), msg)
+                }
+            }
+        };
+    }
+    let unit = |_: ()| json!("-");
+    match a {
+        "GetTask" => {
+            let r = txn.get_task(sm.task(u)).await;
+            done!(r, |t: Option<TaskMap>| match t {
+                Some(t) => json!({"ex": true, "m": sm.map_to_json(&t)}),
+                None => json!({"ex": false, "m": []}),
+            })
+        }
+        "CreateTask" => done!(txn.create_task(sm.task(u)).await, |b: bool| json!(b)),
+        "SetTask" => {
+            let m = sm.map_from_json(&c["m"]);
+            done!(txn.set_task(sm.task(u), m).await, unit)
+        }
+        "DeleteTask" => done!(txn.delete_task(sm.task(u)).await, |b: bool| json!(b)),
+        "AllTasks" => done!(txn.all_tasks().await, |t| sm.tasks_to_json(t)),
+        "AllTaskUuids" => done!(txn.all_task_uuids().await, |us: Vec<Uuid>| {
+            let mut v: Vec<String> = us.iter().map(|x| sm.task_tok(*x)).collect();
+            v.sort();
+            json!(v)
+        }),
+        "BaseVersion" => done!(txn.base_version().await, |v| json!(sm.ver_tok(v))),
+        "SetBaseVersion" => {
+            let v = sm.ver(c["v"].as_str().unwrap());
+            done!(txn.set_base_version(v).await, unit)
+        }
+        "AddOperation" => {
+            let op = sm.op_from_json(&c["op"]);
+            done!(txn.add_operation(op).await, unit)
+        }
+        "RemoveOperation" => {
+            let op = sm.op_from_json(&c["op"]);
+            done!(txn.remove_operation(op).await, unit)
+        }
+        "UnsyncedOperations" => {
+            done!(txn.unsynced_operations().await, |o: Vec<Operation>| sm.ops_to_json(&o))
+        }
+        "NumUnsynced" => done!(txn.num_unsynced_operations().await, |n: usize| json!(n)),
+        "GetTaskOperations" => {
+            done!(txn.get_task_operations(sm.task(u)).await, |o: Vec<Operation>| sm.ops_to_json(&o))
+        }
+        "SyncComplete" => done!(txn.sync_complete().await, unit),
+        "GetWorkingSet" => {
+            done!(txn.get_working_set().await, |w: Vec<Option<Uuid>>| sm.ws_to_json(&w))
+        }
+        "AddToWorkingSet" => done!(txn.add_to_working_set(sm.task(u)).await, |n: usize| json!(n)),
+        "SetWorkingSetItem" => {
+            let i = c["i"].as_u64().unwrap() as usize;
+            let x = c["x"].as_str().unwrap();
+            let x = if x == NOVAL { None } else { Some(sm.task(x)) };
+            done!(txn.set_working_set_item(i, x).await, unit)
+        }
+        "ClearWorkingSet" => done!(txn.clear_working_set().await, unit),
+        "GetPendingTasks" => done!(txn.get_pending_tasks().await, |t| sm.tasks_to_json(t)),
+        "IsEmpty" => done!(txn.is_empty().await, |b: bool| json!(b)),
+        other => panic!("unknown storage call {other}"),
+    }
+}
+
+/// DDL of the historical schemas (src/storage/sqlite/schema.rs; the 0.8.0 dump in inner.rs)
+fn legacy_sql(ver: &str, src: &Path) -> Result<String, String> {
+    let mut s = String::new();
+    s.push_str(&format!("ATTACH DATABASE '{}' AS src;\n", src.display()));
+    s.push_str("PRAGMA journal_mode=WAL;\n");
+    s.push_str(
+        "CREATE TABLE operations (id INTEGER PRIMARY KEY AUTOINCREMENT, data STRING);\n\
+         CREATE TABLE sync_meta (key STRING PRIMARY KEY, value STRING);\n\
+         CREATE TABLE tasks (uuid STRING PRIMARY KEY, data STRING);\n\
+         CREATE TABLE working_set (id INTEGER PRIMARY KEY, uuid STRING);\n",
+    );
+    let uuid_col = |q: char| {
+        format!(
+            "ALTER TABLE operations ADD COLUMN uuid GENERATED ALWAYS AS (\
+             coalesce(json_extract(data, {q}$.Update.uuid{q}), \
+             json_extract(data, {q}$.Create.uuid{q}), \
+             json_extract(data, {q}$.Delete.uuid{q}))) VIRTUAL;\n\
+             CREATE INDEX operations_by_uuid ON operations (uuid);\n"
+        )
+    };
+    let synced = "ALTER TABLE operations ADD COLUMN synced bool DEFAULT false;\n\
+                  CREATE INDEX operations_by_synced ON operations (synced);\n";
+    let version = |minor: u32| {
+        format!(
+            "CREATE TABLE version (singleton INTEGER PRIMARY KEY CHECK (singleton = 0), \
+             major INTEGER, minor INTEGER);\n\
+             INSERT INTO version (singleton, major, minor) VALUES (0, 0, {minor});\n"
+        )
+    };
+    match ver {
+        "0.8" => {}
+        "0.9" => {
+            s.push_str(&uuid_col('"'));
+            s.push_str(synced);
+        }
+        "0.1" => {
+            s.push_str(&uuid_col('"'));
+            s.push_str(synced);
+            s.push_str(&version(1));
+        }
+        "0.2" => {
+            s.push_str(&uuid_col('\''));
+            s.push_str(synced);
+            s.push_str(&version(2));
+        }
+        _ => return Err(format!("unknown legacy schema {ver}")),
+    }
+    if ver == "0.8" {
+        s.push_str("INSERT INTO operations (id, data) SELECT id, data FROM src.operations ORDER BY id;\n");
+    } else {
+        s.push_str(
+            "INSERT INTO operations (id, data, synced) SELECT id, data, synced FROM src.operations ORDER BY id;\n",
+        );
+    }
+    s.push_str(
+        "INSERT INTO sync_meta (key, value) SELECT key, value FROM src.sync_meta;\n\
+         INSERT INTO tasks (uuid, data) SELECT uuid, data FROM src.tasks;\n\
+         INSERT INTO working_set (id, uuid) SELECT id, uuid FROM src.working_set;\n\
+         DETACH DATABASE src;\n",
+    );
+    Ok(s)
+}
+
+/// Rewrite the database in `dir` under an older schema with the sqlite3 command-line tool.
+fn rewrite_legacy(dir: &Path, ver: &str, sqlite3: &str) -> Result<(), String> {
+    let db = dir.join("taskchampion.sqlite3");
+    let src = dir.join("current.sqlite3");
+    if !db.exists() {
+        return Err("no database to rewrite".into());
+    }
+    for suffix in ["-wal", "-shm"] {
+        let p = dir.join(format!("taskchampion.sqlite3{suffix}"));
+        if p.exists() && std::fs::metadata(&p).map(|m| m.len()).unwrap_or(0) > 0 && suffix == "-wal" {
+            return Err("write-ahead log not checkpointed after close".into());
+        }
+        let _ = std::fs::remove_file(p);
+    }
+    std::fs::rename(&db, &src).map_err(|e| e.to_string())?;
+    let sql = legacy_sql(ver, &src)?;
+    let mut child = std::process::Command::new(sqlite3)
+        .arg("-bail")
+        .arg(&db)
+        .stdin(std::process::Stdio::piped())
+        .stdout(std::process::Stdio::piped())
+        .stderr(std::process::Stdio::piped())
+        .spawn()
+        .map_err(|e| format!("cannot run {sqlite3}: {e}"))?;
+    child.stdin.take().unwrap().write_all(sql.as_bytes()).map_err(|e| e.to_string())?;
+    let out = child.wait_with_output().map_err(|e| e.to_string())?;
+    if !out.status.success() {
+        return Err(format!(
+            "sqlite3 failed for schema {ver}: {}",
+            String::from_utf8_lossy(&out.stderr)
+        ));
+    }
+    let _ = std::fs::remove_file(&src);
+    for suffix in ["-wal", "-shm"] {
+        let _ = std::fs::remove_file(dir.join(format!("current.sqlite3{suffix}")));
+    }
+    Ok(())
+}
+
+struct ReplayCfg {
+    sqlite3: Option<String>,
+}
+
+async fn run_stimulus(b: &Value, dir: &Path, cfg: &ReplayCfg, log: Arc<Mutex<Vec<Value>>>) {
+    let backend = b["backend"].as_str().unwrap_or("mem").to_string();
+    let valclass = b["valclass"].as_str().unwrap_or("ascii");
+    let mut sm = SM::new(valclass);
+    let emit = |v: Value| log.lock().unwrap().push(v);
+    emit(json!({"a":"Reset","id":b["id"].clone(),"backend":backend,"valclass":valclass}));
+    let sql = backend == "sqlite";
+    let mut storage: Box<dyn Storage> = if sql {
+        let _ = std::fs::remove_dir_all(dir);
+        match open_sqlite(dir, false, true).await {
+            Ok(s) => Box::new(s),
+            Err(e) => {
+                emit(json!({"a":"OpenFailed","msg":e}));
+                return;
+            }
+        }
+    } else {
+        Box::new(InMemoryStorage::new())
+    };
+    let steps = b["steps"].as_array().unwrap();
+    let mut i = 0usize;
+    while i < steps.len() {
+        let s = &steps[i];
+        let a = s["a"].as_str().unwrap();
+        match a {
+            "Begin" => {
+                i += 1;
+                let mut txn = match storage.txn().await {
+                    Ok(t) => {
+                        emit(json!({"a":"Begin","st":"ok"}));
+                        t
+                    }
+                    Err(e) => {
+                        emit(json!({"a":"Begin","st":"error","msg":format!("{e:#}")}));
+                        continue;
+                    }
+                };
+                while i < steps.len() {
+                    let s = &steps[i];
+                    let a = s["a"].as_str().unwrap();
+                    i += 1;
+                    match a {
+                        "Commit" => {
+                            let r = txn.commit().await;
+                            // nothing may be called on a transaction after commit, whatever
+                            // commit returned
+                            match r {
+                                Ok(()) => emit(json!({"a":"Commit","st":"ok"})),
+                                Err(e) => {
+                                    let (st, msg) = status_of(&e);
+                                    emit(json!({"a":"Commit","st":st,"msg":msg}));
+                                }
+                            }
+                            break;
+                        }
+                        "Abandon" => {
+                            emit(json!({"a":"Abandon"}));
+                            break;
+                        }
+                        "Begin" | "Reopen" | "Legacy" => {
+                            panic!("stimulus {}: {a} inside a transaction", b["id"])
+                        }
+                        _ => {
+                            let (st, v, msg) = exec_call(txn.as_mut(), s, &mut sm).await;
+                            let mut e = json!({"a":"Call","c":s.clone(),"st":st,"v":v});
+                            if !msg.is_empty() {
+                                e["msg"] = json!(msg);
+                            }
+                            emit(e);
+                        }
+                    }
+                }
+                drop(txn);
+            }
+            "Reopen" | "Legacy" => {
+                i += 1;
+                if !sql {
+                    // there is nothing to reopen in memory; only stimuli whose reopen steps are
+                    // plain read-write reopens are given to this backend
+                    continue;
+                }
+                drop(storage);
+                let mut st = "ok".to_string();
+                let mut msg = String::new();
+                if a == "Legacy" {
+                    let ver = s["v"].as_str().unwrap();
+                    match &cfg.sqlite3 {
+                        Some(cli) => {
+                            if let Err(e) = rewrite_legacy(dir, ver, cli) {
+                                st = "toolerror".into();
+                                msg = e;
+                            }
+                        }
+                        None => {
+                            st = "toolerror".into();
+                            msg = "no sqlite3 command-line tool".into();
+                        }
+                    }
+                }
+                let ro = a == "Reopen" && s["v"].as_str() == Some("ro");
+                match open_sqlite(dir, ro, false).await {
+                    Ok(s2) => storage = Box::new(s2),
+                    Err(e) => {
+                        emit(json!({"a":a,"v":s["v"].clone(),"st":"error","msg":e}));
+                        return;
+                    }
+                }
+                let mut e = json!({"a":a,"v":s["v"].clone(),"st":st});
+                if !msg.is_empty() {
+                    e["msg"] = json!(msg);
+                }
+                emit(e);
+            }
+            other => panic!("stimulus {}: unexpected step {other} outside a transaction", b["id"]),
+        }
+    }
+    drop(storage);
+}
+
+fn storage_replay(args: &[String]) {
+    let inp = arg(args, "--in").expect("--in");
+    let out = arg(args, "--out").expect("--out");
+    let dir = PathBuf::from(arg(args, "--dir").expect("--dir"));
+    let jobs: usize = arg(args, "--jobs").and_then(|j| j.parse().ok()).unwrap_or(4);
+    let sqlite3 = arg(args, "--sqlite3");
+    let f = std::io::BufReader::new(std::fs::File::open(inp).unwrap());
+    let stimuli: Vec<Value> = f
+        .lines()
+        .map(|l| l.unwrap())
+        .filter(|l| !l.trim().is_empty())
+        .map(|l| serde_json::from_str(&l).expect("stimulus json"))
+        .collect();
+    let n = stimuli.len();
+    let stimuli = Arc::new(stimuli);
+    let next = Arc::new(Mutex::new(0usize));
+    let results: Arc<Mutex<Vec<Option<Vec<Value>>>>> = Arc::new(Mutex::new(vec![None; n]));
+    std::fs::create_dir_all(&dir).unwrap();
+    let mut handles = vec![];
+    for j in 0..jobs.max(1) {
+        let stimuli = stimuli.clone();
+        let next = next.clone();
+        let results = results.clone();
+        let dir = dir.join(format!("job{j}"));
+        let sqlite3 = sqlite3.clone();
+        handles.push(std::thread::spawn(move || {
+            let cfg = ReplayCfg { sqlite3 };
+            let rt = tokio::runtime::Builder::new_current_thread().enable_all().build().unwrap();
+            loop {
+                let k = {
+                    let mut g = next.lock().unwrap();
+                    let k = *g;
+                    *g += 1;
+                    k
+                };
+                if k >= stimuli.len() {
+                    break;
+                }
+                let log = Arc::new(Mutex::new(Vec::new()));
+                let b = stimuli[k].clone();
+                let d = dir.join("db");
+                let l2 = log.clone();
+                let r = std::panic::catch_unwind(std::panic::AssertUnwindSafe(|| {
+                    let local = tokio::task::LocalSet::new();
+                    local.block_on(&rt, run_stimulus(&b, &d, &cfg, l2));
+                }));
+                if let Err(p) = r {
+                    let msg = p
+                        .downcast_ref::<String>()
+                        .cloned()
+                        .or_else(|| p.downcast_ref::<&str>().map(|s| s.to_string()))
+                        .unwrap_or_default();
+                    log.lock().unwrap().push(json!({"a":"Panic","msg":msg}));
+                }
+                let lines = std::mem::take(&mut *log.lock().unwrap());
+                results.lock().unwrap()[k] = Some(lines);
+            }
+            let _ = std::fs::remove_dir_all(&dir);
+        }));
+    }
+    for h in handles {
+        h.join().unwrap();
+    }
+    let mut o = std::io::BufWriter::new(std::fs::File::create(out).unwrap());
+    let mut nev = 0usize;
+    for r in results.lock().unwrap().iter() {
+        for l in r.as_ref().expect("result") {
+            writeln!(o, "{}", serde_json::to_string(l).unwrap()).unwrap();
+            nev += 1;
+        }
+    }
+    eprintln!("replayed {n} stimuli, {nev} events");
 }
